@@ -1,24 +1,48 @@
 (* Props/C04.v -- C04: a name resolves to what Python would bind it to, or not at all.
-   Only statements closed by `exact` (+ vm_compute witnesses); proofs live in Proofs/NamesProofs.v (relative-import
-   arithmetic, Layer A: soundness of expandName in every state satisfying the registry / alias-map invariants,
-   soundness of the Spec evaluator) and Proofs/NamesInvProofs.v (Layer B: the visitor establishes the invariants).
-   Model: Model/Names.v (pydoctor astbuilder/model).  Spec: Spec/PyImport.v (CPython binding, relations py_ns, py_attr, py_abs).
+   Only statements closed by `exact` (+ vm_compute witnesses); proofs live in
+     Proofs/NamesProofs.v     relative-import arithmetic; Layer A = soundness of expandName in every state that
+                              satisfies the registry / alias-map invariants `coherent`; soundness of the Spec evaluator
+     Proofs/NamesInvProofs.v  well-formedness of projects, scope lemmas, entries written for import statements,
+                              first version of Layer B (imports / definitions / classes only, no guard)
+     Proofs/NamesRunProofs.v  Layer B for whole runs: imports of every form, definitions, nested classes, ALIAS
+                              ASSIGNMENTS, BASE EXPRESSIONS and STAR IMPORTS from processed modules, every processing
+                              order; the property-level corollary; Documentable.reparent (partial)
+   Model: Model/Names.v (pydoctor astbuilder/model).  Spec: Spec/PyImport.v (CPython binding; relations py_ns, py_attr,
+   py_abs and an evaluator proved sound for them).
 
    Reading guide.  `py_abs P q v` : the dotted name q, read as a Python expression over sys.modules, has value v.
-   `py_lookup P m qual dotted v` : in the namespace of module m / class m.qual the (dotted) name has value v.
-   `denotes o v` : the pydoctor object o (by its identity = full name at definition) is the Python object v.
-   `trail_ok st ctx true dotted` : the walk of expandName binds the first part in ctx itself and never finds a later
-   part by falling back from a class to its enclosing scope -- the two fallbacks that the _refuted theorems show
-   to be unsound in pydoctor as it is.
+   `py_ns P m qual n v` : the namespace of module m / class m.qual binds n to v.  `py_lookup P m qual dotted v` : in
+   that namespace the (dotted) name has value v.  `denotes o v` : the pydoctor object o (identity = full name at
+   definition) is the Python object v.  `wf_project P` : the quantifier's subset -- module paths closed under
+   packages, each name bound once per scope (wf_body, W_sub, W_star).
 
-   What is NOT proved here (only tied by the correspondence check and the oracle): whole-project soundness when the
-   project contains `x = y.z` aliases, base-class expressions, `import *` or re-exports (Layer A covers them under
-   the stated invariants, C04_star_sound_partial / C04_expand_sound; establishing the invariants for those statements
-   needs "every earlier statement has been visited" facts that are not mechanised); completeness ("always
-   resolves") is proved at the level of the state the visitor leaves (C04_direct_import_resolves,
-   C04_module_alias_resolves), not from the project text. *)
+   Guards, all computed by the model and all exact images of known findings:
+     trail_ok st ctx true dotted   the walk of expandName binds the first part in ctx itself and never finds a later
+                                   part (i) by falling back from a class to its enclosing scope [finding 3], (ii)
+                                   through Class.find skipping an alias of an intermediate base [finding 4], or through
+                                   a class whose body is still being visited;
+     leak st = false               ghost flag of the run: every expansion performed DURING the run (alias right-hand
+                                   side, base expression) stayed inside trail_ok with its first name found in the scope
+                                   itself or -- for a class body that does not bind it -- in the module, no enclosing
+                                   class knowing it [finding 2]; every star import was from a PROCESSED module (the
+                                   cycle case is outside the property's quantifier); _handleReExport moved no object
+                                   [finding 1: after a move, names imported from the defining module are stale];
+     all_closed st = true          every module was processed (C01's theorem).
+   The correspondence check reports how many generated runs satisfy leak = false / all_closed (evidence: distribution).
+
+   What is NOT proved (tied by the correspondence check and the oracle only):
+   - runs in which a re-export move FIRES are outside the whole-run theorems (the ghost flag is raised by the move;
+     projects may list imported names in __all__, the guard is about the run).  What is proved about such runs:
+     reparent keeps registry and alias maps sound (C04_reexport_keeps_soundness_partial), the module-alias path still
+     resolves (C04_module_alias_resolves), and the refuted witness; threading moved paths (o_path <> o_id) through the
+     run invariant (C_own, Class.find, "a closed namespace knows its names") is not mechanised;
+   - completeness ("always resolves") from the project text: proved at the level of the state the visitor leaves
+     (C04_direct_import_resolves, C04_module_alias_resolves) plus "a completely visited namespace knows every name
+     Python binds in it" (inside C04_bound_name_sound);
+   - classes have at most one base in the model; import cycles and rebinding are outside the quantifier. *)
 From Coq Require Import NArith List Bool Arith.
-From PydoctorVerif Require Import Base.ImportSyntax Model.Names Spec.PyImport Proofs.NamesProofs Proofs.NamesInvProofs.
+From PydoctorVerif Require Import Base.ImportSyntax Model.Names Spec.PyImport Proofs.NamesProofs Proofs.NamesInvProofs
+     Proofs.NamesRunProofs.
 Import ListNotations.
 
 (* 1. pydoctor's relative-import arithmetic (level-1 steps up from a package, level steps from a module, "too
@@ -46,7 +70,7 @@ Theorem C04_alias_map_sound :
        forall v, py_attr P (scope_val m qual) (bound_of (orig, asname)) v -> py_abs P (X ++ [orig]) v).
 Proof.
   intros P WF m qual body mm Hsb Hwf Hfm. split; [|split].
-  - intros a t Hin. exact (proj1 (entry_import_top P m qual body a t Hsb Hwf Hin)).
+  - intros a t Hin. exact (proj1 (entry_import_top P WF m qual body a t Hsb Hwf Hin)).
   - intros c t Hin. exact (proj1 (entry_import_as P WF m qual body c t Hsb Hwf Hin)).
   - intros level modname names orig asname X Hin Hin2 Hib.
     exact (proj1 (entry_from P WF m qual body mm level modname names orig asname X Hsb Hwf Hfm Hin Hin2 Hib)).
@@ -93,7 +117,7 @@ Proof. exact expand_sound_class_fallback. Qed.
    wf_project; see the header.) *)
 Theorem C04_expand_sound_project_partial :
   forall P order ctx m qual dotted v o,
-    wf_project P -> simple_project P = true ->
+    wf_project P -> simple_project P = true -> no_reexport P ->
     let st := final_state P order in
     In ctx (objs st) -> py_abs P (o_path ctx) (scope_val m qual) ->
     py_lookup P m qual dotted v ->
@@ -103,8 +127,51 @@ Theorem C04_expand_sound_project_partial :
 Proof. exact expand_sound_project. Qed.
 
 Theorem C04_invariants_established_partial :
-  forall P order, wf_project P -> simple_project P = true -> coherent P (final_state P order).
-Proof. intros P order WF S. exact (final_coherent P WF S order). Qed.
+  forall P order, wf_project P -> simple_project P = true -> no_reexport P -> coherent P (final_state P order).
+Proof. intros P order WF S NX. exact (final_coherent P WF S NX order). Qed.
+
+(* 3c. Whole runs WITH alias assignments (`x = y.z`, module and class level), base-class expressions and star imports:
+   for every well-formed project and every processing order, if no expansion performed during the run left the guard
+   (ghost flag `leak` of the model: right-hand sides and base expressions are expanded inside `trail_ok`, first name
+   found in the scope itself or -- for a class body that does not bind it -- in the module with no enclosing class
+   knowing it; star imports from processed modules only; no re-export move), the invariants hold in the final state;
+   hence resolveName is sound there.
+   The proof mechanises "a namespace whose body has been visited completely knows every name Python binds in it". *)
+Theorem C04_run_establishes_invariants :
+  forall P order, wf_project P ->
+    leak (final_state P order) = false -> coherent P (final_state P order).
+Proof. intros P order WF. exact (run_coherent P WF order). Qed.
+
+Theorem C04_expand_sound_run :
+  forall P order ctx m qual dotted v o,
+    wf_project P ->
+    let st := final_state P order in
+    leak st = false ->
+    In ctx (objs st) -> py_abs P (o_path ctx) (scope_val m qual) ->
+    py_lookup P m qual dotted v ->
+    trail_ok st ctx true dotted = true ->
+    resolve_name st ctx dotted = Some o ->
+    denotes o v.
+Proof.
+  intros P order ctx m qual dotted v o WF st Hl Hin Habs Hpy Hok Hres.
+  eapply resolve_sound; try eassumption. apply run_coherent; assumption.
+Qed.
+
+(* 3d. THE PROPERTY, in the shape of its text, for whole runs: in any module or class namespace (m, qual), for every
+   name n that Python binds there (py_ns), if pydoctor resolves n in that namespace to an object, it is the object
+   Python binds.  Guards: well-formed project (wf_project), the run never left the guard (leak = false: exactly the
+   fallbacks of the _refuted theorems 1-4 -- re-export move, nested class capture, and, for the expansions done during
+   the run, class-attribute fallback and Class.find skipping an alias -- and star imports from unprocessed modules), and
+   every module was processed (all_closed; C01's theorem).  For dotted names add trail_ok (C04_expand_sound_run). *)
+Theorem C04_bound_name_sound :
+  forall P order m qual n v o,
+    wf_project P ->
+    let st := final_state P order in
+    leak st = false -> all_closed st = true ->
+    py_ns P m qual n v ->
+    resolve_in st (m ++ qual) [n] = Some o ->
+    denotes o v.
+Proof. intros P order m qual n v o WF. exact (bound_name_sound P WF order m qual n v o). Qed.
 
 (* 4. `from X import *` (module processed at the time of the import): the entry _importAll writes for a name n
    that the imported module itself binds, `expandName(n)` evaluated in that module, denotes X.n -- which is what
@@ -114,7 +181,7 @@ Theorem C04_star_sound_partial :
   forall P st, coherent P st ->
   forall mo X n v,
     In mo (objs st) -> py_abs P (o_path mo) (VMod X) -> py_ns P X [] n v ->
-    is_some (child st mo n) || is_some (assoc n (o_amap mo)) = true ->
+    own st mo n = true ->
     py_abs P (expand_name st mo [n]) v.
 Proof.
   intros P st Hc mo X n v Hin Habs Hns Hown.
@@ -142,6 +209,18 @@ Theorem C04_module_alias_resolves :
       exists q, assoc n (o_amap mo) = Some q /\ path_eqb q [n] = false /\ obj_for st q = Some o)) ->
     resolve_name st ctx [k; n] = Some o.
 Proof. exact module_alias_resolves. Qed.
+
+(* 6. Re-exports (partial): Documentable.reparent, as _handleReExport uses it -- a top-level definition x of module D
+   moved into the re-exporting module R under the name n, R saying `from <D> import x [as n]` -- keeps the registry
+   and every alias map sound (the state-independent half of `coherent`), including the alias left behind in D.  *)
+Theorem C04_reexport_keeps_soundness_partial :
+  forall P, wf_project P ->
+  forall st ob cur oldpar R n D x,
+    sound_objs P st -> reexp P R n D x ->
+    parent_of st ob = Some oldpar -> o_path ob = D ++ [x] -> o_path cur = R ->
+    (forall o, In o (objs st) -> o_id o = o_id oldpar -> o_path o = D) ->
+    sound_objs P (reparent st ob cur n).
+Proof. intros P WF. exact (reexport_sound P WF). Qed.
 
 (* ------------------------------------------------------------------------------------------------------------
    Witnesses.  Atoms: even = public identifier, odd = identifier starting with '_'. *)
@@ -174,7 +253,7 @@ Proof.
   split; [|split; [|split; [|split]]].
   - eexists. split; [reflexivity | cbn; auto].
   - eexists. exists None, []. split; [reflexivity | cbn; auto].
-  - apply (ev_sound w1 eq_refl 20%nat (REval [6] [] [4])). vm_compute. reflexivity.
+  - apply (ev_sound w1 20%nat (REval [6] [] [4])). vm_compute. reflexivity.
   - vm_compute. reflexivity.
   - eexists. split; vm_compute; reflexivity.
 Qed.
@@ -195,7 +274,7 @@ Proof.
   exists w2, [[2]], [2], [10; 12], [14].
   destruct (resolve_in (final_state w2 [[2]]) ([2] ++ [10; 12]) [14]) as [o|] eqn:E; [|vm_compute in E; discriminate].
   exists o, (VObj [2] [4]). split; [exact E|split].
-  - apply (ev_sound w2 eq_refl 20%nat (REval [2] [10; 12] [14])). vm_compute. reflexivity.
+  - apply (ev_sound w2 20%nat (REval [2] [10; 12] [14])). vm_compute. reflexivity.
   - vm_compute in E. inversion E; subst. vm_compute. discriminate.
 Qed.
 
@@ -217,7 +296,27 @@ Proof.
   exists w3, [[12]; [8]; [2]], [12], [], [14; 4].
   destruct (resolve_in (final_state w3 [[12]; [8]; [2]]) ([12] ++ []) [14; 4]) as [o|] eqn:E; [|vm_compute in E; discriminate].
   exists o, (VObj [2] [6]). split; [exact E|split].
-  - apply (ev_sound w3 eq_refl 20%nat (REval [12] [] [14; 4])). vm_compute. reflexivity.
+  - apply (ev_sound w3 20%nat (REval [12] [] [14; 4])). vm_compute. reflexivity.
+  - vm_compute in E. inversion E; subst. vm_compute. discriminate.
+Qed.
+
+(* Class.find looks at `contents` only: an alias assignment in an intermediate base class is skipped.
+     m.py: class Other: pass ; class Base2: def n(self) ; class Base1(Base2): n = Other ; class C(Base1): pass
+                                                                          m=2 Other=4 Base2=6 n=8 Base1=10 C=12
+   In m, C.n is Other at run time (Base1 rebinds n); pydoctor resolves it to Base2.n. *)
+Definition w4 : project :=
+  [ mk [2] false None [SClass 4 None []; SClass 6 None [SDef 8]; SClass 10 (Some [6]) [SAlias 8 [4]];
+                       SClass 12 (Some [10]) []] ].
+
+Theorem C04_find_skips_alias_refuted :
+  exists P order m qual dotted o v,
+    resolve_in (final_state P order) (m ++ qual) dotted = Some o /\
+    py_lookup P m qual dotted v /\ o_id o <> flat v.
+Proof.
+  exists w4, [[2]], [2], [], [12; 8].
+  destruct (resolve_in (final_state w4 [[2]]) ([2] ++ []) [12; 8]) as [o|] eqn:E; [|vm_compute in E; discriminate].
+  exists o, (VObj [2] [4]). split; [exact E|split].
+  - apply (ev_sound w4 20%nat (REval [2] [] [12; 8])). vm_compute. reflexivity.
   - vm_compute in E. inversion E; subst. vm_compute. discriminate.
 Qed.
 
@@ -253,9 +352,10 @@ Ltac wf_body_tac :=
     | let Hi := fresh "Hi" in intros ? ? ? Hi; in_cases Hi; repeat constructor; cbn; intuition discriminate
     | let Hi := fresh "Hi" in intros ? ? ? Hi; in_cases Hi ]).
 
-Example C04_example_wf : wf_project e0 /\ simple_project e0 = true.
+Example C04_example_wf : wf_project e0 /\ simple_project e0 = true /\ no_reexport e0.
 Proof.
-  split; [|reflexivity]. constructor.
+  split; [|split; [reflexivity | intros mm n H Hn; in_cases H; cbn in Hn; reflexivity]]. constructor.
+  - cbn. repeat constructor; cbn; intuition discriminate.
   - intros mm H. in_cases H; discriminate.
   - intros mm H. in_cases H; reflexivity.
   - intros mm q n H Hp Hq. in_cases H; cbn in Hp.
@@ -266,7 +366,8 @@ Proof.
     + destruct q as [|? [|? ?]]; try discriminate; congruence.
   - intros pm n H Hm. in_cases H; unfold is_module, find_module in Hm; cbn -[N.eqb] in Hm; split_eqb; try discriminate; reflexivity.
   - intros mm H. in_cases H; cbn; wf_body_tac.
-  - intros mm n H Hn. in_cases H; cbn in Hn; reflexivity.
+  - intros mm level modname X n H Hs. in_cases H; in_cases Hs.
+  - intros mm H. in_cases H; reflexivity.
 Qed.
 
 (* all hypotheses of C04_expand_sound_project_partial hold for c.py and the names `F` and `pm.Foo.meth`,
@@ -289,21 +390,21 @@ Proof.
     [|vm_compute in Ectx; inversion Ectx; subst; vm_compute in E2; discriminate].
   pose proof (obj_for_some _ _ _ Ectx) as [Hin Hp].
   assert (Habs : py_abs e0 (o_path ctx) (scope_val [10] [])).
-  { rewrite Hp. apply (ev_abs_sound e0 20%nat [10]); reflexivity. }
+  { rewrite Hp. apply (ev_abs_sound e0 20%nat [10]). reflexivity. }
   assert (Hl1 : py_lookup e0 [10] [] [12] (VObj [2;4] [6])).
-  { apply (ev_sound e0 eq_refl 20%nat (REval [10] [] [12])). vm_compute. reflexivity. }
+  { apply (ev_sound e0 20%nat (REval [10] [] [12])). vm_compute. reflexivity. }
   assert (Hl2 : py_lookup e0 [10] [] [14;6;8] (VObj [2;4] [6;8])).
-  { apply (ev_sound e0 eq_refl 20%nat (REval [10] [] [14;6;8])). vm_compute. reflexivity. }
+  { apply (ev_sound e0 20%nat (REval [10] [] [14;6;8])). vm_compute. reflexivity. }
   assert (Ht1 : trail_ok st ctx true [12] = true).
   { vm_compute in Ectx. inversion Ectx; subst. vm_compute. reflexivity. }
   assert (Ht2 : trail_ok st ctx true [14;6;8] = true).
   { vm_compute in Ectx. inversion Ectx; subst. vm_compute. reflexivity. }
   assert (Hd1 : denotes o1 (VObj [2;4] [6])).
   { apply (C04_expand_sound_project_partial e0 [[10]; [2]; [2;4]] ctx [10] [] [12] _ o1
-             (proj1 C04_example_wf) (proj2 C04_example_wf) Hin Habs Hl1 Ht1 E1). }
+             (proj1 C04_example_wf) (proj1 (proj2 C04_example_wf)) (proj2 (proj2 C04_example_wf)) Hin Habs Hl1 Ht1 E1). }
   assert (Hd2 : denotes o2 (VObj [2;4] [6;8])).
   { apply (C04_expand_sound_project_partial e0 [[10]; [2]; [2;4]] ctx [10] [] [14;6;8] _ o2
-             (proj1 C04_example_wf) (proj2 C04_example_wf) Hin Habs Hl2 Ht2 E2). }
+             (proj1 C04_example_wf) (proj1 (proj2 C04_example_wf)) (proj2 (proj2 C04_example_wf)) Hin Habs Hl2 Ht2 E2). }
   exists ctx, o1, o2.
   split; [exact Hin|]. split; [exact Habs|]. split; [exact Hl1|]. split; [exact Ht1|].
   split; [exact E1|]. split; [exact (proj1 Hd1)|].
@@ -322,3 +423,98 @@ Example C04_module_alias_after_reexport :
   option_map o_id (resolve_in (final_state w1b [[6]; [2]; [2;3]]) [6] [10; 4]) = Some [2;3;4] /\
   resolve_in (final_state w1b [[6]; [2]; [2;3]]) [6] [4] = None.
 Proof. split; vm_compute; reflexivity. Qed.
+
+(* non-vacuity of 3c: aliases at module and class level, a base expression through a module alias, an inherited member
+     d.py: class Base: def inh(self)                          d=2 Base=4 inh=6
+     c.py: import d as dd ; class Sub(dd.Base): al = dd.Base.inh ; x = Sub.inh      c=8 dd=10 Sub=12 al=14 x=16 *)
+Definition e1 : project :=
+  [ mk [2] false None [SClass 4 None [SDef 6]];
+    mk [8] false None [SImport [2] (Some 10); SClass 12 (Some [10; 4]) [SAlias 14 [10; 4; 6]]; SAlias 16 [12; 6]] ].
+
+Example C04_example_run_wf : wf_project e1 /\ no_star e1 = true /\ leak (final_state e1 [[2]; [8]]) = false.
+Proof.
+  split; [|split; reflexivity]. constructor.
+  - cbn. repeat constructor; cbn; intuition discriminate.
+  - intros mm H. in_cases H; discriminate.
+  - intros mm H. in_cases H; reflexivity.
+  - intros mm q n H Hp Hq. in_cases H; cbn in Hp; destruct q as [|? [|? ?]]; try discriminate; congruence.
+  - intros pm n H Hm. in_cases H; unfold is_module, find_module in Hm; cbn -[N.eqb] in Hm; split_eqb; try discriminate; reflexivity.
+  - intros mm H. in_cases H; cbn; wf_body_tac.
+  - intros mm level modname X n H Hs. in_cases H; in_cases Hs.
+  - intros mm H. in_cases H; reflexivity.
+Qed.
+
+Example C04_example_run :
+  let st := final_state e1 [[2]; [8]] in
+  exists ctx o, obj_for st [8] = Some ctx /\ resolve_name st ctx [16] = Some o /\ denotes o (VObj [2] [4; 6]).
+Proof.
+  intro st.
+  destruct (obj_for st [8]) as [ctx|] eqn:Ectx; [|vm_compute in Ectx; discriminate].
+  destruct (resolve_name st ctx [16]) as [o|] eqn:E1;
+    [|vm_compute in Ectx; inversion Ectx; subst; vm_compute in E1; discriminate].
+  exists ctx, o. split; [reflexivity|]. split; [exact E1|].
+  pose proof (obj_for_some _ _ _ Ectx) as [Hin Hp].
+  destruct C04_example_run_wf as [WF [NS Hl]].
+  apply (C04_expand_sound_run e1 [[2]; [8]] ctx [8] [] [16] _ o WF Hl Hin).
+  - rewrite Hp. apply (ev_abs_sound e1 20%nat [8]). reflexivity.
+  - apply (ev_sound e1 20%nat (REval [8] [] [16])). vm_compute. reflexivity.
+  - vm_compute in Ectx. inversion Ectx; subst. vm_compute. reflexivity.
+  - exact E1.
+Qed.
+
+(* non-vacuity with a star import:   lib.py: class Pub ; class _Priv          lib=2 Pub=4 _Priv=5
+                                     c.py  : from lib import * ; class S(Pub)   c=6 S=8 *)
+Definition e2 : project :=
+  [ mk [2] false None [SClass 4 None []; SClass 5 None []];
+    mk [6] false None [SStar 0 [2]; SClass 8 (Some [4]) []] ].
+
+Example C04_example_star_wf :
+  wf_project e2 /\ leak (final_state e2 [[6]; [2]]) = false /\ all_closed (final_state e2 [[6]; [2]]) = true.
+Proof.
+  split; [|split; reflexivity]. constructor.
+  - cbn. repeat constructor; cbn; intuition discriminate.
+  - intros mm H. in_cases H; discriminate.
+  - intros mm H. in_cases H; reflexivity.
+  - intros mm q n H Hp Hq. in_cases H; cbn in Hp; destruct q as [|? [|? ?]]; try discriminate; congruence.
+  - intros pm n H Hm. in_cases H; unfold is_module, find_module in Hm; cbn -[N.eqb] in Hm; split_eqb; try discriminate; reflexivity.
+  - intros mm H. in_cases H; cbn; wf_body_tac.
+  - intros mm level modname X n H Hs Hr Hc. in_cases H; in_cases Hs.
+    cbn in Hr. inversion Hr; subst X.
+    assert (Hn : n = 4%N).
+    { unfold star_cand in Hc. apply andb_true_iff in Hc. destruct Hc as [Hex Hev].
+      change (find_module e2 [2]) with (Some (mk [2] false None [SClass 4 None []; SClass 5 None []])) in Hev.
+      cbn [m_all m_body mk is_some orb] in Hev.
+      change (is_module e2 ([2] ++ [n])) with false in Hev.
+      change (top_has_star [SClass 4 None []; SClass 5 None []]) with false in Hev. rewrite !orb_false_r in Hev.
+      destruct (binder_of [SClass 4 None []; SClass 5 None []] n) as [b|] eqn:Eb; [|discriminate].
+      destruct (binder_of_in _ _ _ Eb) as [s0 [Hs0 Hb0]]. in_cases Hs0; cbn -[N.eqb] in Hb0.
+      - destruct (N.eqb_spec 4 n); [auto | discriminate].
+      - destruct (N.eqb_spec 5 n) as [E5|]; [|discriminate]. subst n. vm_compute in Hex. discriminate. }
+    subst n. repeat split; try reflexivity.
+    intros l' mn' X' Hs' Hr' _. in_cases Hs'. cbn in Hr'. congruence.
+  - intros mm H. in_cases H; reflexivity.
+Qed.
+
+(* the property-level corollary applies: the star-imported name Pub in c resolves to lib.Pub *)
+Example C04_example_star :
+  exists o, resolve_in (final_state e2 [[6]; [2]]) ([6] ++ []) [4] = Some o /\ denotes o (VObj [2] [4]).
+Proof.
+  destruct (resolve_in (final_state e2 [[6]; [2]]) ([6] ++ []) [4]) as [o|] eqn:E; [|vm_compute in E; discriminate].
+  exists o. split; [reflexivity|].
+  destruct C04_example_star_wf as [WF [Hl Hc]].
+  apply (C04_bound_name_sound e2 [[6]; [2]] [6] [] 4 _ o WF Hl Hc); [|exact E].
+  apply (ev_sound e2 20%nat (RNs [6] [] 4)). vm_compute. reflexivity.
+Qed.
+
+(* the run guard is exact about finding 1: the re-export witness raises the flag, and a project that lists an imported
+   name in __all__ WITHOUT a move (the origin exports it itself) does not
+     r.py: from d import Foo ; __all__ = ['Foo']       d.py: class Foo ; __all__ = ['Foo']         r=2 d=4 Foo=6 *)
+Definition e3 : project :=
+  [ mk [2] false (Some [6]) [SFrom 0 [4] [(6, None)]];
+    mk [4] false (Some [6]) [SClass 6 None []] ].
+
+Example C04_run_guard_and_reexports :
+  leak (final_state w1 [[6]; [2]; [2;3]]) = true /\
+  leak (final_state e3 [[2]; [4]]) = false /\
+  option_map o_id (resolve_in (final_state e3 [[2]; [4]]) [2] [6]) = Some [4; 6].
+Proof. repeat split; vm_compute; reflexivity. Qed.
